@@ -97,7 +97,7 @@ def run_config(cfg, seed, tier):
 
 
 CAPS = {"quick": dict(seq=200_000, mem=200_000, core=150_000, walk=5_000),
-        "thorough": dict(seq=2_000_000, mem=1_000_000, core=1_500_000, walk=50_000)}
+        "thorough": dict(seq=2_000_000, mem=1_000_000, core=600_000, walk=50_000)}
 
 
 def product_program(cfg):
@@ -143,6 +143,9 @@ def run_product(cfg, seed, tier, only_trace=None):
         return res
     except vlog.VlogUnsupported as e:
         res.update(exhaustive=False, unsupported=str(e))
+        return res
+    except L.ConvertError as e:
+        res["violations"].append(dict(rule="printer.convert_error", msg=f"convert() raised: {e}", detail=dict(error=str(e))))
         return res
     res.update(states=st["states"], transitions=st["transitions"], conformed=st["conformed"], exhaustive=st["exhaustive"],
                evaluations=st["transitions"] + st["walk_cycles"], distinct=st["states"], walk_cycles=st["walk_cycles"], bfs_depth=st["depth"],
@@ -201,6 +204,9 @@ def run_comb(cfg, tier, only=None, only_inputs=None):
         B = L.SideB(mk)
     except (vlog.VlogSyntaxError, vlog.VlogUnsupported) as e:
         res["violations"].append(dict(rule="printer.illegal_verilog", msg=f"emitted text rejected: {e}", detail=dict(error=str(e))))
+        return res
+    except L.ConvertError as e:
+        res["violations"].append(dict(rule="printer.convert_error", msg=f"convert() raised: {e}", detail=dict(error=str(e))))
         return res
     widths = [len(s) for s in A.info["inputs"]]
     spaces = [range(1 << w) for w in widths]
